@@ -7,7 +7,7 @@ CONSTANTS
   NRs = {3}
   NRhos = {2}
   Faults = FALSE
-  FlushFixed = FALSE
+  FlushFixed = TRUE
 INVARIANT TypeOK
 INVARIANT NoStuck
 INVARIANT C03_ElementsOnce
